@@ -485,8 +485,85 @@ def run(chk):
     chk.verdict("Q4", ini, "unassigned sites raise", True if "any((tensor is None for tensor in self._site_data.values()))" in ltxt else False,
                 "Lattice.__init__ lost the check that every unique site got an object")
 
+    run_Q5(chk)
     from . import e10
     e10.run_U(chk, ("yastn.tn.fpeps._geometry",), floor1=5, floor2=1)
+
+
+def run_Q5(chk):
+    """Q5: the tables of unique bonds.  (i) `bonds()` concatenates the tables `self._bonds_*` with `+`: every value ever stored in one of
+    them has to be of one sequence type (tuple) -- a list next to tuples makes `bonds()` raise for exactly the lattices that take
+    that path.  (ii) a bond is built from the result of nn_site(), which is None outside an open boundary: every `Bond(..)` whose end
+    comes from nn_site() is constructed only under a test that this end is not None."""
+    prog = chk.prog
+    chk.rule("Q5", "bond tables concatenated by bonds() hold tuples on every path; bonds are built from nn_site() results only when these are not None", floor=6)
+    m = prog.module(GEO)
+    for ci in m.classes.values():
+        bm = ci.methods.get("bonds")
+        if bm is None or bm.cls is not ci:
+            continue
+        tables = sorted({n.attr for n in ast.walk(bm.node) if isinstance(n, ast.Attribute) and n.attr.startswith("_bonds") and isinstance(n.value, ast.Name)
+                         and n.value.id == bm.params[0]})
+        concat = any(isinstance(n, ast.BinOp) and isinstance(n.op, ast.Add) and "_bonds" in A.text(n) for n in ast.walk(bm.node))
+        if not concat:
+            continue
+        # every store into these tables, in this class and its bases / subclasses defined in the module
+        family = [c for c in m.classes.values() if c is ci or ci in prog.subclasses(c) or c in prog.subclasses(ci)]
+        for c2 in family:
+            for meth in c2.methods.values():
+                if meth.cls is not c2:
+                    continue
+                b = A.local_bindings(meth.node)
+                for st in ast.walk(meth.node):
+                    if not (isinstance(st, ast.Assign) and len(st.targets) == 1 and isinstance(st.targets[0], ast.Attribute) and st.targets[0].attr in tables):
+                        continue
+                    v = st.value
+
+                    def kind(e, depth=0):
+                        if isinstance(e, ast.Tuple) or (isinstance(e, ast.Call) and A.call_name(e) == "tuple"):
+                            return "tuple"
+                        if isinstance(e, (ast.List, ast.ListComp)) or (isinstance(e, ast.Call) and A.call_name(e) in ("list", "sorted")):
+                            return "list"
+                        if isinstance(e, ast.Name) and depth < 3:
+                            ks = {kind(v_, depth + 1) for st_, v_, k_ in b.get(e.id, []) if v_ is not None and k_ == "assign"}
+                            return ks.pop() if len(ks) == 1 else None
+                        if isinstance(e, ast.IfExp):
+                            ks = {kind(e.body, depth + 1), kind(e.orelse, depth + 1)}
+                            return ks.pop() if len(ks) == 1 else None
+                        return None
+                    k = kind(v)
+                    chk.verdict("Q5", (meth, st), f"{c2.name}.{meth.name}: {st.targets[0].attr} <- {k or 'unclassified'}", True if k == "tuple" else False if k == "list" else None,
+                                f"{c2.name}.{meth.name}(): `{A.short(st, 50)}` stores a list in a table that {ci.name}.bonds() concatenates with tuples "
+                                f"(`self._bonds_h + self._bonds_v + ...`): bonds() raises TypeError for every lattice built on this path")
+    # (ii) None guards
+    for ci in m.classes.values():
+        for meth in ci.methods.values():
+            if meth.cls is not ci or "nn_site" not in A.text(meth.node) or "Bond(" not in A.text(meth.node):
+                continue
+            b = A.local_bindings(meth.node)
+            par = A.enclosing_map(meth.node)
+            from_nn = {nm for nm, ds in b.items() if any(v_ is not None and isinstance(v_, ast.Call) and A.callee_attr(v_) == "nn_site" for st_, v_, k_ in ds)}
+            for c in ast.walk(meth.node):
+                if not (isinstance(c, ast.Call) and A.call_name(c) == "Bond"):
+                    continue
+                ends = [a_.id for a_ in c.args if isinstance(a_, ast.Name) and a_.id in from_nn]
+                if not ends:
+                    continue
+                tested = set()
+                cur = c
+                while cur in par:
+                    prev, cur = cur, par[cur]
+                    if isinstance(cur, ast.If) and prev in cur.body:
+                        for t_ in ast.walk(cur.test):
+                            if isinstance(t_, ast.Compare) and len(t_.ops) == 1 and isinstance(t_.ops[0], ast.IsNot) and isinstance(t_.left, ast.Name) \
+                                    and isinstance(t_.comparators[0], ast.Constant) and t_.comparators[0].value is None:
+                                tested.add(t_.left.id)
+                            if isinstance(t_, ast.Name) and isinstance(cur.test, (ast.Name, ast.BoolOp)) and isinstance(t_.ctx, ast.Load):
+                                tested.add(t_.id) if isinstance(cur.test, ast.Name) or (isinstance(cur.test, ast.BoolOp) and isinstance(cur.test.op, ast.And) and t_ in cur.test.values) else None
+                missing = [e for e in ends if e not in tested]
+                chk.verdict("Q5", (meth, c), f"{ci.name}.{meth.name}: `{A.short(c, 30)}` under `is not None` of {ends}", False if missing else True,
+                            f"{ci.name}.{meth.name}(): `{A.short(c, 40)}` is built from `{', '.join(missing)}` = nn_site(..), which is None beyond an open "
+                            f"boundary, without testing it: the lattice lists a bond with a missing end (not a pair of nearest neighbours)")
 
 MUTANTS = [
     ("direction tests folded into a loop in another order", "yastn/tn/fpeps/_geometry.py", "        if self.nn_site(s0, 'r') == s1 and self.nn_site(s1, 'l') == s0:\n            return 'lr'  # dirn\n        if self.nn_site(s0, 'b') == s1 and self.nn_site(s1, 't') == s0:\n            return 'tb'\n        if self.nn_site(s0, 'l') == s1 and self.nn_site(s1, 'r') == s0:\n            return 'rl'\n        if self.nn_site(s0, 't') == s1 and self.nn_site(s1, 'b') == s0:\n            return 'bt'\n", "        for d0, d1 in ('tb', 'lr', 'bt', 'rl'):\n            if self.nn_site(s0, d0) == s1 and self.nn_site(s1, d1) == s0:\n                return d1 + d0\n", "Q2"),
